@@ -299,17 +299,22 @@ def history_member(payload, tier, seed):
     def fresh_snapshot(fixed):
         key = tuple(sorted(fixed.items()))
         if key not in fresh_cache:
-            bf, gf = make_processor(desc, enc)
-            for k, v in fixed.items():
-                gf.fix_des_var(gf.all_des_vars[k], v)
-            fresh_cache[key] = snap(bf, gf)
+            def mk():
+                bf, gf = make_processor(desc, enc)
+                for k, v in fixed.items():
+                    gf.fix_des_var(gf.all_des_vars[k], v)
+                return bf, gf
+            # the reference: every single decode on a processor that has served nothing before
+            fresh_cache[key] = snap(*mk(), mk=mk)
         return fresh_cache[key]
 
-    def snap(b, gp):
+    def snap(b, gp, mk=None):
         dec = []
         X, _ = all_vectors(gp.des_vars, cap=8)
         for x in X:
             for create in (True, False):
+                if mk is not None:
+                    b, gp = mk()
                 try:
                     inst, xi, ai = gp.get_graph(list(x), create=create)
                     vals = None
